@@ -83,7 +83,8 @@ class Env:
         if self.sched is not None:
             self.sched.point(kind + ':end')
         self.stamp('end', kind, idx, self.stage)
-        if idx >= 0 and self.fault_phase == 1 and idx == self.fault_at:
+        if idx >= 0 and self.fault_phase == 1 and kind.startswith('s3.') and idx == self.fault_at:
+            # 'the service applied the call, the client got an error' (only meaningful for requests)
             self.delivered = (idx, kind)
             self.stamp('fault', kind, idx)
             raise Injected(kind, idx)
